@@ -6,7 +6,7 @@ static bool has(const std::vector<int> &v, int x) { return std::find(v.begin(), 
 static bool in_flush_phase(const Delivery &d) { return d.looping_known && !d.ctx_looping; }
 
 // priority of a delivered event as the module configured it: 0 low, 1 normal, 2 high
-static int evt_prio(Slot &s, const EvtObs &e) {
+int evt_prio(Slot &s, const EvtObs &e) {
     if (e.type == M_SRC_TYPE_FD) return 2;
     unsigned fl = 0;
     bool found = false;
